@@ -301,6 +301,8 @@ pub struct Limits {
     pub max_found: usize,
     /// how many traces to arbitrary discovered states to hand back for replay validation
     pub keep_state_traces: usize,
+    /// require that every reachable state can still reach a final state (no livelock / dead end)
+    pub check_coreach: bool,
 }
 
 impl Default for Limits {
@@ -310,6 +312,7 @@ impl Default for Limits {
             keep_final_traces: 4,
             max_found: 8,
             keep_state_traces: 4,
+            check_coreach: false,
         }
     }
 }
@@ -352,6 +355,9 @@ pub fn explore<S: Sys>(init: S, lim: &Limits) -> Explored<S> {
         cap_hit: false,
     };
     let mut found_keys: std::collections::HashSet<String> = Default::default();
+    let mut edges: Vec<(u32, u32)> = Vec::new();
+    let mut final_idx: Vec<u32> = Vec::new();
+    let mut bad_idx: std::collections::HashSet<u32> = Default::default();
 
     let k0 = init.key();
     seen.insert(k0, 0);
@@ -367,7 +373,11 @@ pub fn explore<S: Sys>(init: S, lim: &Limits) -> Explored<S> {
         let depth = nodes[idx as usize].depth;
         out.max_depth = out.max_depth.max(depth as u64);
 
-        if let Err((key, what)) = st.invariant() {
+        let inv = match guarded(|| st.invariant()) {
+            Ok(r) => r,
+            Err(p) => Err((format!("panic:{}", panic_site(&p)), format!("a query / readiness call panicked: {}", p))),
+        };
+        if let Err((key, what)) = inv {
             if found_keys.insert(key.clone()) && out.found.len() < lim.max_found {
                 out.found.push(Found {
                     key,
@@ -375,12 +385,24 @@ pub fn explore<S: Sys>(init: S, lim: &Limits) -> Explored<S> {
                     trace: trace_of(&nodes, idx),
                 });
             }
+            bad_idx.insert(idx);
             continue;
         }
 
-        let acts = st.actions();
+        let acts = match guarded(|| st.actions()) {
+            Ok(a) => a,
+            Err(p) => {
+                let key = format!("panic:{}", panic_site(&p));
+                if found_keys.insert(key.clone()) && out.found.len() < lim.max_found {
+                    out.found.push(Found { key, what: format!("a readiness query panicked: {}", p), trace: trace_of(&nodes, idx) });
+                }
+                bad_idx.insert(idx);
+                continue;
+            }
+        };
         if acts.is_empty() {
             out.finals += 1;
+            final_idx.push(idx);
             if st.is_final() {
                 if let Err((key, what)) = st.final_check() {
                     if found_keys.insert(key.clone()) && out.found.len() < lim.max_found {
@@ -424,18 +446,29 @@ pub fn explore<S: Sys>(init: S, lim: &Limits) -> Explored<S> {
             match r {
                 Ok(()) => {
                     let k = nx.key();
-                    if !seen.contains_key(&k) {
-                        let ni = nodes.len() as u32;
-                        seen.insert(k, ni);
-                        nodes.push(Node {
-                            parent: idx,
-                            act: Some(a),
-                            depth: depth + 1,
-                        });
-                        queue.push_back((ni, nx));
+                    match seen.get(&k) {
+                        Some(&ti) => {
+                            if lim.check_coreach && ti != idx {
+                                edges.push((idx, ti));
+                            }
+                        }
+                        None => {
+                            let ni = nodes.len() as u32;
+                            seen.insert(k, ni);
+                            nodes.push(Node {
+                                parent: idx,
+                                act: Some(a),
+                                depth: depth + 1,
+                            });
+                            if lim.check_coreach {
+                                edges.push((idx, ni));
+                            }
+                            queue.push_back((ni, nx));
+                        }
                     }
                 }
                 Err((key, what)) => {
+                    bad_idx.insert(idx);
                     if found_keys.insert(key.clone()) && out.found.len() < lim.max_found {
                         let mut t = trace_of(&nodes, idx);
                         t.push(a);
@@ -452,6 +485,40 @@ pub fn explore<S: Sys>(init: S, lim: &Limits) -> Explored<S> {
         if nodes.len() as u64 > lim.max_states {
             out.cap_hit = true;
             break;
+        }
+    }
+    if lim.check_coreach && !out.cap_hit {
+        // backward reachability from final states (and from states where a violation was already
+        // reported, so that one defect is not reported twice)
+        let n = nodes.len();
+        let mut rev: Vec<Vec<u32>> = vec![Vec::new(); n];
+        for (a, b) in &edges {
+            rev[*b as usize].push(*a);
+        }
+        let mut ok = vec![false; n];
+        let mut stack: Vec<u32> = final_idx.iter().cloned().chain(bad_idx.iter().cloned()).collect();
+        for i in &stack {
+            ok[*i as usize] = true;
+        }
+        while let Some(i) = stack.pop() {
+            for &p in &rev[i as usize] {
+                if !ok[p as usize] {
+                    ok[p as usize] = true;
+                    stack.push(p);
+                }
+            }
+        }
+        if let Some(i) = (0..n).find(|i| !ok[*i]) {
+            // deepest-first is not needed: the first (shallowest) stuck state is the clearest
+            let key = "no-path-to-completion".to_string();
+            if found_keys.insert(key.clone()) {
+                let k = seen.iter().find(|(_, v)| **v == i as u32).map(|(k, _)| k.clone()).unwrap_or_default();
+                out.found.push(Found {
+                    key,
+                    what: format!("livelock / dead end: from this state no sequence of permitted calls and arrivals reaches the end of the exchange: {}", k),
+                    trace: trace_of(&nodes, i as u32),
+                });
+            }
         }
     }
     if lim.keep_state_traces > 0 && nodes.len() > 1 {
@@ -510,15 +577,25 @@ pub fn panic_site(msg: &str) -> String {
 /// Returns the final object, or the first failure.
 pub fn replay_trace<S: Sys>(mut s: S, trace: &[S::Act]) -> Result<S, (String, String)> {
     for a in trace {
-        s.invariant()?;
+        match guarded(|| s.invariant()) {
+            Ok(r) => r?,
+            Err(p) => return Err((format!("panic:{}", panic_site(&p)), p)),
+        }
         let r = guarded(|| s.step(a));
         match r {
             Ok(r) => r?,
             Err(p) => return Err((format!("panic:{}", panic_site(&p)), p)),
         }
     }
-    s.invariant()?;
-    if s.actions().is_empty() && s.is_final() {
+    match guarded(|| s.invariant()) {
+        Ok(r) => r?,
+        Err(p) => return Err((format!("panic:{}", panic_site(&p)), p)),
+    }
+    let fin = match guarded(|| s.actions().is_empty() && s.is_final()) {
+        Ok(b) => b,
+        Err(p) => return Err((format!("panic:{}", panic_site(&p)), p)),
+    };
+    if fin {
         s.final_check()?;
     }
     Ok(s)
